@@ -106,19 +106,16 @@ impl<'de> ObjectJsonIter<'de> {
             return None;
         }
 
-        if self.first {
-            // check invalid utf8
-            if let Err(err) = self.parser.read.check_utf8_final() {
-                self.ending = true;
-                return Some(Err(err));
-            }
-        }
-
         match self
             .parser
             .parse_entry_lazy(&mut self.strbuf, &mut self.first, self.skip_strict)
         {
             Ok(ret) => {
+                // the member just skipped must be valid UTF-8; what follows it is not looked at yet
+                if let Err(err) = self.parser.check_invalid_utf8(false) {
+                    self.ending = true;
+                    return Some(Err(err));
+                }
                 if let Some(Pair { key, val, status }) = ret {
                     let val = self.parser.read.slice_ref(val);
                     Some(Ok(LazyValue::new(val, status.into())).map(|v| (key, v)))
@@ -164,19 +161,16 @@ impl<'de> ArrayJsonIter<'de> {
             return None;
         }
 
-        if self.first {
-            // check invalid utf8
-            if let Err(err) = self.parser.read.check_utf8_final() {
-                self.ending = true;
-                return Some(Err(err));
-            }
-        }
-
         match self
             .parser
             .parse_array_elem_lazy(&mut self.first, self.skip_strict)
         {
             Ok(ret) => {
+                // the element just skipped must be valid UTF-8; what follows it is not looked at yet
+                if let Err(err) = self.parser.check_invalid_utf8(false) {
+                    self.ending = true;
+                    return Some(Err(err));
+                }
                 if let Some((val, status)) = ret {
                     let val = self.parser.read.slice_ref(val);
                     Some(Ok(LazyValue::new(val, status.into())))
